@@ -53,47 +53,61 @@ def EXHAUSTIVE(tier):
 # ------------------------------------------------------------------------------------------------
 # case enumeration (numpy only)
 # ------------------------------------------------------------------------------------------------
+def _chs_shape(rng, budget, lo=4, hi=11):
+    """Small shape for ConnectHolesAndStructures: its jit cost grows with nz * max(shape) (unrolled sweeps)."""
+    for _ in range(100):
+        s = [int(rng.integers(lo, hi)), int(rng.integers(lo, hi)), int(rng.integers(3, 9))]
+        if s[2] * max(s) <= budget:
+            return s
+    return [lo, lo, 3]
+
+
 def cases(tier, rng):
     quick = tier == "quick"
     out = []
+    mats = ["m2_bg0", "m2_bg1", "m3_bg0", "m3_bg1", "m3_bg2"]
     # random designs
-    n_rand = 8 if quick else 60
+    n_rand = 6 if quick else 70
     for i in range(n_rand):
-        big = (i % 4 == 3)
-        hi = 25 if big else 13
-        shapes = []
-        for _ in range(2):
+        rf_shapes = []
+        for j in range(3 if quick else 5):
+            hi = 25 if j == 0 else 13
             s = [int(rng.integers(3, hi)) for _ in range(3)]
             if rng.random() < 0.3:
                 s[int(rng.integers(3))] = 3
-            shapes.append(s)
+            rf_shapes.append(s)
+        chs_shapes = [_chs_shape(rng, 40 if quick else 60, lo=3)]
+        if not quick and i % 5 == 0:
+            chs_shapes.append([int(rng.integers(8, 17)) for _ in range(3)])
         out.append(
             {
                 "kind": "random",
-                "shapes": shapes,
-                "n_rf": 30 if quick else 60,
-                "n_chs": (6 if big else 16) if quick else (12 if big else 30),
-                "mat": ["m2_bg0", "m2_bg1", "m3_bg0", "m3_bg1", "m3_bg2"][i % 5],
+                "rf_shapes": rf_shapes,
+                "chs_shapes": chs_shapes,
+                "n_rf": 22 if quick else 60,
+                "n_chs": 44 if quick else 120,
+                "mat": mats[i % 5],
                 "dtype": ["float32", "int32", "float64"][i % 3],
             }
         )
     # adversarial designs
-    n_adv = 1 if quick else 6
+    n_adv = 1 if quick else 8
     for rep in range(n_adv):
         for j, fam in enumerate(FAMILIES):
-            sizes = []
-            for _ in range(2 if quick else 3):
-                hi = 13 if quick else 25
-                s = [int(rng.integers(5, hi)) for _ in range(3)]
-                sizes.append(s)
-            if rep == 0:
-                sizes[0] = [9, 9, 9] if fam != "serp_xz" else [9, 3, 9]
+            rf_shapes = [[9, 3, 9] if fam == "serp_xz" else [9, 9, 9]] if rep == 0 else []
+            for _ in range(1 if quick else 3):
+                rf_shapes.append([int(rng.integers(5, 17 if quick else 25)) for _ in range(3)])
+            chs_shapes = [_chs_shape(rng, 45 if quick else 70, lo=5)]
+            if not quick and rep % 4 == 1:
+                chs_shapes.append([int(rng.integers(9, 15)) for _ in range(3)])
             out.append(
                 {
                     "kind": "adversarial",
                     "family": fam,
-                    "shapes": sizes,
-                    "mat": ["m2_bg0", "m2_bg1", "m3_bg0"][(j + rep) % 3],
+                    "rf_shapes": rf_shapes,
+                    "chs_shapes": chs_shapes,
+                    "reps": 2 if quick else 4,
+                    "mat": mats[(j + rep) % 5],
                     "dtype": ["float32", "int32"][(j + rep) % 2],
                 }
             )
@@ -555,6 +569,15 @@ def judge_chs(r, tf, mask, meta, dtype, rng, use_jit, family):
 # ------------------------------------------------------------------------------------------------
 # case runner
 # ------------------------------------------------------------------------------------------------
+_TF_CACHE = {}
+
+
+def _tf(mat):
+    if mat not in _TF_CACHE:
+        _TF_CACHE[mat] = _Tf(mat)
+    return _TF_CACHE[mat]
+
+
 def run_case(case):
     import numpy as np
 
@@ -564,50 +587,53 @@ def run_case(case):
     bootstrap.ensure()
     r = Res()
     rng = np.random.default_rng(case["seed"])
-    tf = _Tf(case["mat"])
+    tf = _tf(case["mat"])  # ConnectHolesAndStructures: 2 or 3 materials
+    tf_rf = _tf("m2_bg" + str(int(case["mat"][-1]) % 2))  # RemoveFloatingMaterial is documented for binary systems only
     dtype = case["dtype"]
     kind = case["kind"]
     if kind == "random":
         styles = ["iid", "iid", "iid", "blob", "blob", "pillars", "shell", "no_bottom", "empty", "full", "one"]
-        for shape in case["shapes"]:
-            shape = tuple(shape)
-            for i in range(case["n_rf"]):
-                st = styles[i % len(styles)] if i >= len(styles) else styles[i]
-                sub = int(rng.integers(1 << 31))
-                m, par = random_design(st, shape, np.random.default_rng(sub))
-                r.branch(f"design:{st}")
-                meta = {"style": st, "design_seed": sub, "params": par}
-                judge_rf(r, tf, m, meta, dtype, rng, use_jit=(i != 0), family=st)
-                if i < case["n_chs"]:
-                    judge_chs(r, tf, m, meta, dtype, rng, use_jit=(i != 1 or max(shape) > 8), family=st)
+        for which, shapes, n in (("rf", case["rf_shapes"], case["n_rf"]), ("chs", case["chs_shapes"], case["n_chs"])):
+            for k, shape in enumerate(shapes):
+                shape = tuple(shape)
+                for i in range(n):
+                    st = styles[i % len(styles)]
+                    sub = int(rng.integers(1 << 31))
+                    m, par = random_design(st, shape, np.random.default_rng(sub))
+                    r.branch(f"design:{st}")
+                    meta = {"style": st, "design_seed": sub, "params": par}
+                    if which == "rf":
+                        judge_rf(r, tf_rf, m, meta, dtype, rng, use_jit=not (i == 0 and k == 0), family=st)
+                    else:
+                        judge_chs(r, tf, m, meta, dtype, rng, use_jit=True, family=st)
     elif kind == "adversarial":
         fam = case["family"]
-        for shape in case["shapes"]:
-            shape = tuple(shape)
-            for i in range(4):
-                sub = int(rng.integers(1 << 31))
-                m, par = adversarial(fam, shape, np.random.default_rng(sub))
-                variant = "plain"
-                if i == 2:  # the complement design: long air paths, material everywhere else
-                    m = ~m
-                    variant = "complement"
-                elif i == 3:  # noise on top of the structure
-                    flip = np.random.default_rng(sub + 1).random(shape) < 0.03
-                    m = m ^ flip
-                    variant = "noisy"
-                r.branch(f"design:{fam}:{variant}")
-                meta = {"family": fam, "variant": variant, "design_seed": sub, "params": par}
-                judge_rf(r, tf, m, meta, dtype, rng, use_jit=(i != 0), family=f"{fam}:{variant}")
-                judge_chs(r, tf, m, meta, dtype, rng, use_jit=True, family=f"{fam}:{variant}")
+        for which, shapes in (("rf", case["rf_shapes"]), ("chs", case["chs_shapes"])):
+            for k, shape in enumerate(shapes):
+                shape = tuple(shape)
+                for i in range(4 * case["reps"]):
+                    sub = int(rng.integers(1 << 31))
+                    m, par = adversarial(fam, shape, np.random.default_rng(sub))
+                    variant = ["plain", "plain", "complement", "noisy"][i % 4]
+                    if variant == "complement":  # long air paths, material everywhere else
+                        m = ~m
+                    elif variant == "noisy":  # noise on top of the structure
+                        m = m ^ (np.random.default_rng(sub + 1).random(shape) < 0.03)
+                    r.branch(f"design:{fam}:{variant}")
+                    meta = {"family": fam, "variant": variant, "design_seed": sub, "params": par}
+                    if which == "rf":
+                        judge_rf(r, tf_rf, m, meta, dtype, rng, use_jit=not (i == 0 and k == 0), family=f"{fam}:{variant}")
+                    else:
+                        judge_chs(r, tf, m, meta, dtype, rng, use_jit=True, family=f"{fam}:{variant}")
     else:  # flat / tiny
         styles = ["full", "iid", "one", "empty", "iid", "blob"]
-        for shape in case["shapes"]:
+        for k, shape in enumerate(case["shapes"]):
             shape = tuple(shape)
             for i, st in enumerate(styles):
                 sub = int(rng.integers(1 << 31))
                 m, par = random_design(st, shape, np.random.default_rng(sub))
                 r.branch(f"design:{kind}:{st}")
                 meta = {"style": st, "design_seed": sub, "params": par}
-                judge_rf(r, tf, m, meta, dtype, rng, use_jit=(i % 2 == 1), family=f"{kind}:{st}")
-                judge_chs(r, tf, m, meta, dtype, rng, use_jit=(i % 2 == 1), family=f"{kind}:{st}")
+                judge_rf(r, tf_rf, m, meta, dtype, rng, use_jit=(i != 0), family=f"{kind}:{st}")
+                judge_chs(r, tf, m, meta, dtype, rng, use_jit=not (i == 0 and k == 0), family=f"{kind}:{st}")
     return r.to_dict()
